@@ -101,7 +101,12 @@ def run_reader_case(prog, params):
         pos = 0
         trace = []
         for step in range(k):
-            kind = ex.choose(5 if params.get('readall', True) else 4, 'kind')
+            if step == 0 and params.get('first') is not None:
+                kind = params['first']
+            elif step == 1 and params.get('second') is not None:
+                kind = params['second']
+            else:
+                kind = ex.choose(5 if params.get('readall', True) else 4, 'kind')
             if kind == 4:
                 # read_to_end from the current position: exactly the remaining bytes, cursor at the end afterwards
                 out = sr.do('hreadall h')
@@ -247,7 +252,10 @@ def run_writer_case(prog, params):
             # statement's exclusions for C02/C14 name it). Its sessions consist of writes and flushes only.
             oappend = 'phys' in cfg and mode == 'append'
             for step in range(k):
-                kind = ex.choose(5, 'wkind') if not oappend else (0, 4)[ex.choose(2, 'wkind')]
+                if si == 0 and step == 0 and params.get('first') is not None and not oappend:
+                    kind = params['first']
+                else:
+                    kind = ex.choose(5, 'wkind') if not oappend else (0, 4)[ex.choose(2, 'wkind')]
                 if kind == 0:
                     n = 1 + ex.choose(2, 'wlen')
                     name = 'wd%d_%d' % (si, step)
@@ -303,7 +311,7 @@ def run_writer_case(prog, params):
             if not check_content(sr, ex, 'f', cur, findings, prop, tag + '|after_%s_session' % mode):
                 return findings
         # transfers
-        xfer = ex.choose(3, 'xfer')
+        xfer = params['xfer'] if params.get('xfer') is not None else ex.choose(3, 'xfer')
         if xfer and cur is not None:
             op = ['copy_file', 'move_file'][xfer - 1]
             sr.do('%s f g' % op)
